@@ -1,5 +1,6 @@
 import AkVerif.Model.Proto
 import AkVerif.Model.GhistTags
+import AkVerif.Model.GhistRefs
 open Ak Ak.Proto Ghist
 
 /-!
@@ -11,6 +12,12 @@ open Ak Ak.Proto Ghist
             version file in the commit or `-`), the position is the commit id; `-` = no commit
 * refs    : `;`-separated `name:head` (`name` as code points), `-` = none
 reply: `ok <branch> <branch> …`, branch = `name=build;build;…`, build = `N|M:bn:commit|-:c,c,…`
+
+`repd <remote> <text> <commits> <refs> <shas> <packed> <loose>` : the same report, the refs read from a git directory
+(`GitRepo.iter_refs`): the tags of `commits` and the heads of `refs` are ignored, they come from the storage
+* shas    : `;`-separated hexsha of the commits (position = commit id)
+* packed  : the text of `.git/packed-refs` as code points, `~` = there is no such file
+* loose   : `;`-separated `name:hexsha` (`name` = full ref name as code points) — the files below `.git/refs`; `-` = none
 -/
 
 def parseBN (s : String) : Option BN :=
@@ -65,11 +72,35 @@ def handleRep (rm tx : List Char) (commits refs : String) : String :=
   | some raw, some rs =>
     match toCommits raw with
     | .ok cs => showExcept showReport (report { commits := cs, remote := rm, refs := rs } Plug.none)
-    | .error _ => "bad-op"      -- a build tag that needs the saved version of a commit that has none
+    | .error _ => "bad-op"      -- not reached: since `unknownNum` stands for a missing saved version `tagBN` never fails
   | _, _ => "bad-op"
+
+def parseLoose (s : String) : Option (List Char × List Char) :=
+  match s.splitOn ":" with
+  | [n, h] => (parseCps n).map fun cs => (cs, h.toList)
+  | _ => none
+
+def parsePacked (s : String) : Option (Option (List Char)) :=
+  if s = "~" then some none else (parseCps s).map some
+
+def handleRepd (rm tx : List Char) (commits refs shas packed loose : String) : String :=
+  match parseList (parseCommit tx) commits, parseList parseRef refs, parseList (fun s => some s.toList) shas,
+        parsePacked packed, parseList parseLoose loose with
+  | some raw, some rs, some sh, some pk, some lo =>
+    match storedHist { packed := pk, loose := lo } sh rm raw rs with
+    | .error e => "err " ++ e.name
+    | .ok (raw', rs') =>
+      match toCommits raw' with
+      | .ok cs => showExcept showReport (report { commits := cs, remote := rm, refs := rs' } Plug.none)
+      | .error _ => "bad-op"
+  | _, _, _, _, _ => "bad-op"
 
 def handle (line : String) : String :=
   match splitWs line with
+  | ["repd", remote, text, commits, refs, shas, packed, loose] =>
+    match parseCps remote, parseCps text with
+    | some rm, some tx => handleRepd rm tx commits refs shas packed loose
+    | _, _ => "bad-op"
   | ["rep", remote, text, commits, refs] =>
     match parseCps remote, parseCps text with
     | some rm, some tx => handleRep rm tx commits refs
